@@ -584,6 +584,8 @@ pub fn run_check(id: &str, tier: &str, seed: u64) -> i32 {
         "C04" => sim(&[Expiry, Mixed], &["R04a"], n(80_000, 1_500_000), rt, "exploration"),
         "C07" => sim(&[Reject, Mixed], &["R07a", "R07b", "R07c"], n(80_000, 1_500_000), rt, "exploration"),
         "C10" => {
+            // the amount that reaches lightningd's pay through the real rpc.rs (amountless invoices)
+            let params_handle = std::env::var("VMON_PLUGIN_BIN").ok().map(|bin| std::thread::spawn(move || crate::e2e_checks::pay_params_sessions(&bin, seed, if thorough { 48 } else { 12 })));
             // random campaign + the finite classification product, enumerated
             let rules = ["R10"];
             let mut agg = campaign(id, &rules, seed, thorough, &[Classify, Hashes], n(60_000, 1_200_000), if thorough { 1200 } else { 60 });
@@ -624,7 +626,32 @@ pub fn run_check(id: &str, tier: &str, seed: u64) -> i32 {
                 v.detail = format!("[classification product case] {}", v.detail);
             }
             merge(&mut agg, prod);
-            conclude(id, tier, seed, "exploration", &agg, &rules, "the finite product invoice{amount present/absent} x signer{payee, explicit payee, explicit payee signed by another key, signature recovering to another key, explicit payee with the other recovery id} x hints{none, other, self last, self not last, other then self last} x hash{equal, different} x amount field{absent, equal, +1, -1, padded equal, empty, 9 bytes, single zero byte} x allow_self x forward_msat{present, absent} x amount record {after, before} the invoice record (6000 cases, each one funded single-HTLC run, pay failing in half of them so that the reported payee is observed), plus random seeded runs of the Classify/Hashes profiles; distinct_nontrivial = distinct abstract traces among runs in which R10 was evaluated", sim_assumptions(), t0, json!({"classification_product_cases": n_prod}), None)
+            let c10_e2e_exit = AtomicU64::new(0);
+            let rc10 = conclude(id, tier, seed, "exploration", &agg, &rules, "the finite product invoice{amount present/absent} x signer{payee, explicit payee, explicit payee signed by another key, signature recovering to another key, explicit payee with the other recovery id} x hints{none, other, self last, self not last, other then self last} x hash{equal, different} x amount field{absent, equal, +1, -1, padded equal, empty, 9 bytes, single zero byte} x allow_self x forward_msat{present, absent} x amount record {after, before} the invoice record (6000 cases, each one funded single-HTLC run, pay failing in half of them so that the reported payee is observed), plus random seeded runs of the Classify/Hashes profiles; distinct_nontrivial = distinct abstract traces among runs in which R10 was evaluated", sim_assumptions(), t0, {
+                let mut extra = json!({"classification_product_cases": n_prod});
+                if let Some(h) = params_handle {
+                    if let Ok(r) = h.join() {
+                        extra["e2e_pay_parameter_sessions(real rpc.rs)"] = r.coverage;
+                        for (sig, (n, w)) in r.violations.iter() {
+                            if sig.starts_with("R03c|e2e-amount") {
+                                let dir = format!("{}/replays", out_dir());
+                                let _ = std::fs::create_dir_all(&dir);
+                                let path = format!("{dir}/{id}-e2e-{}.json", sig.replace('|', "_").chars().take(80).collect::<String>());
+                                let _ = std::fs::write(&path, serde_json::to_string_pretty(&json!({"property": id, "engine": "e2e-pay-params", "signature": sig, "witness": w, "count": n, "seed": seed})).unwrap());
+                                println!("VIOLATION property={id} replay={path}");
+                                eprintln!("  {sig}: {}", w.chars().take(600).collect::<String>());
+                                c10_e2e_exit.store(1, Ordering::Relaxed);
+                            }
+                        }
+                    }
+                }
+                extra
+            }, None);
+            if c10_e2e_exit.load(Ordering::Relaxed) == 1 {
+                1
+            } else {
+                rc10
+            }
         }
         "C11" => sim(&[Timeout, Mixed], &["R11a", "R11b", "R11c"], n(80_000, 1_500_000), rt, "exploration"),
         "C13" => sim(&[PassThrough, Mixed], &["R13a", "R13b"], n(80_000, 1_500_000), rt, "exploration"),
